@@ -165,6 +165,7 @@ MULMODE = ["nra"]
 _PIf = 3.141592653589793
 PI_LITERALS = {Fraction(_PIf): PIq, Fraction(_PIf / 180.0): PIq / 180, Fraction(180.0 / _PIf): Fraction(180) / PIq,
                Fraction(_PIf / 2): PIq / 2, Fraction(2 * _PIf): 2 * PIq, Fraction(_PIf / 360.0): PIq / 360}
+class TeamBarrier(Exception): pass
 class Interp:
     def __init__(s, mod, ex=None, float_mode="real", max_steps=2_000_000):
         s.mod, s.ex = mod, (ex or EX); s.steps = 0; s.max_steps = max_steps
@@ -241,6 +242,10 @@ class Interp:
         if off in o.mem:
             v, sz = o.mem[off]
             if sz == n: return v
+            # type-punned scalar passing (OpenMP firstprivate: a float is stored into an i64 slot, the slot is passed by value and read back
+            # as float): the narrow value travels inside a token; nothing else may be done with the wide value
+            if isinstance(v, tuple) and len(v) == 3 and v[0] == "packed" and v[2] == n: return v[1]
+            if sz < n and not isinstance(off, z3.ExprRef) and not any((off + b) in o.mem for b in range(sz, n)): return ("packed", v, sz)
         if o.zero: return Ptr(None, 0) if isinstance(ty, tuple) else (Fraction(0) if ty in ("float", "double") else 0)
         if o.init is not None:
             v = o.init(off, ty); o.mem[off] = (v, n); return v
@@ -457,9 +462,19 @@ class Interp:
             loc, gtid, sched, plast, plb, pub, pstride, incr, chunk = a
             if s.omp_mode == "seq":      # one thread owns the whole iteration space
                 s.store(pstride, "i32", 1 << 30, ins); s.store(plast, "i32", 1, ins); return None
+            if s.omp_mode == "team":     # static schedule without chunk: thread k of nt gets the k-th block of ceil(n/nt) iterations
+                lb = s.load(plb, "i32", ins); ub = s.load(pub, "i32", ins); nt, k = s.num_threads, s.cur_tid
+                if is_sym(lb) or is_sym(ub):      # symbolic trip count: thread 0 takes everything (every iteration is still executed by a team member)
+                    if k: s.store(plb, "i32", 1, ins); s.store(pub, "i32", 0, ins)
+                    s.store(pstride, "i32", 1 << 30, ins); s.store(plast, "i32", int(k == 0), ins); return None
+                n = ub - lb + 1; blk = -(-n // nt) if n > 0 else 0
+                mylb = lb + k * blk; myub = min(ub, mylb + blk - 1)
+                s.store(plb, "i32", mylb, ins); s.store(pub, "i32", myub, ins)
+                s.store(pstride, "i32", 1 << 30, ins); s.store(plast, "i32", int(myub == ub and mylb <= myub), ins); return None
             s.store(plb, "i32", s.omp_iter, ins); s.store(pub, "i32", s.omp_iter, ins)
             s.store(pstride, "i32", 1 << 30, ins); s.store(plast, "i32", 0, ins); return None
         if name == "__kmpc_for_static_fini": return None
+        if name == "__kmpc_barrier" and s.omp_mode == "team": raise TeamBarrier("barrier inside a parallel region: the run-to-completion team model does not apply")
         if name in ("__kmpc_barrier", "__kmpc_flush"): return None      # sequentially consistent memory model: a flush is a no-op
         if name == "__kmpc_reduce_nowait": s.in_reduction = True; return 1
         if name == "__kmpc_end_reduce_nowait": s.in_reduction = False; return None
@@ -474,6 +489,16 @@ class Interp:
                 o = s.newobj("tid", 4, None, "priv"); o.mem[0] = (v, 4); return Ptr(o, 0)
             if s.omp_mode == "threads" and s.fork_count == getattr(s, "fork_target", 1):
                 s.thread_handler(s, fn, cap, cell); return None
+            if s.omp_mode == "team":
+                # memory-safety view of a team of `team_size` threads: each member runs the outlined body to completion in turn with its own
+                # omp_get_thread_num(); no interleaving (races are the business of C07/C11/C13), regions with barriers are refused
+                nt = s.team_size; old = (s.cur_tid, s.num_threads)
+                try:
+                    for k in range(nt):
+                        s.cur_tid, s.num_threads = k, nt; s._disp = 0
+                        s.call(fn, [cell(k), cell(k)] + list(cap))
+                finally: s.cur_tid, s.num_threads = old
+                return None
             if s.omp_mode != "foot" or s.fork_count != getattr(s, "fork_target", 1):
                 old = (s.omp_mode, s.cur_tid, s.num_threads); s.omp_mode = "seq"; s.cur_tid = 0; s.num_threads = 1
                 try: s.call(fn, [cell(0), cell(0)] + list(cap))
@@ -491,7 +516,7 @@ class Interp:
         if name == "__kmpc_dispatch_next_4":
             loc, gtid, plast, plb, pub, pst = a
             if s.omp_mode != "foot":       # one thread takes the whole range in a single chunk
-                if s._disp: return 0
+                if s._disp or (s.omp_mode == "team" and s.cur_tid != 0): return 0
                 s._disp = 1; lb, ub, st = s._disp_range
                 s.store(plb, "i32", lb, ins); s.store(pub, "i32", ub, ins); s.store(pst, "i32", st, ins); s.store(plast, "i32", 1, ins); return 1
             if s._disp: return 0
